@@ -71,6 +71,28 @@ type World struct {
 	Handled    int // HandleConnection calls that returned
 	stdioC2S   *netsim.MemConn
 	stdioS2C   *netsim.MemConn
+	tracked    []*netsim.MemConn // connection ends held by socketace code
+}
+
+// Track registers a connection end that is handed to socketace code (leak oracle).
+func (w *World) Track(c *netsim.MemConn, label string) {
+	c.Label = label
+	w.mu.Lock()
+	w.tracked = append(w.tracked, c)
+	w.mu.Unlock()
+}
+
+// OpenTracked lists the socketace-held connection ends that were never closed.
+func (w *World) OpenTracked() []string {
+	w.mu.Lock()
+	defer w.mu.Unlock()
+	var out []string
+	for _, c := range w.tracked {
+		if !c.Closed() {
+			out = append(out, c.Label)
+		}
+	}
+	return out
 }
 
 func pick(p *pki.PKI, name string) pki.Pair {
@@ -101,7 +123,7 @@ func New(o Options) (*World, error) {
 	w := &World{Opt: o}
 	for i, n := range o.Channels {
 		tag := byte(0x11 * (i + 1))
-		fc := &FakeChannel{ChName: n, Tag: tag, BufLimit: o.AppBuf, Keep: o.Keep}
+		fc := &FakeChannel{ChName: n, W: w, Tag: tag, BufLimit: o.AppBuf, Keep: o.Keep}
 		w.Chans = append(w.Chans, fc)
 		w.SrvChans = append(w.SrvChans, fc)
 	}
@@ -131,7 +153,7 @@ func New(o Options) (*World, error) {
 	switch o.Carrier {
 	case "stream":
 		w.Listener = netsim.NewListener("server:1")
-		w.Listener.OnDial = o.OnDial
+		w.Listener.OnDial = w.onDial
 		var l net.Listener = w.Listener
 		if o.TLS {
 			tc, err := w.SrvCfg.GetTlsConfig()
@@ -143,7 +165,7 @@ func New(o Options) (*World, error) {
 		go w.serveStream(l, o.TLS, filtered)
 	case "ws":
 		w.Listener = netsim.NewListener("server:80")
-		w.Listener.OnDial = o.OnDial
+		w.Listener.OnDial = w.onDial
 		w.HTTP = server.NewHttpServer()
 		w.HTTP.ServerConfig = w.SrvCfg
 		w.HTTP.VerifSetSecure(o.TLS)
@@ -199,6 +221,14 @@ func New(o Options) (*World, error) {
 	return w, nil
 }
 
+func (w *World) onDial(c, s *netsim.MemConn) {
+	w.Track(c, "carrier client end")
+	w.Track(s, "carrier server end")
+	if w.Opt.OnDial != nil {
+		w.Opt.OnDial(c, s)
+	}
+}
+
 func (w *World) serveStream(l net.Listener, secure bool, chans server.Channels) {
 	for {
 		c, err := l.Accept()
@@ -232,6 +262,7 @@ func (w *World) CarrierClientEnd(n int) *netsim.MemConn {
 // the given channel: the real AbstractListener.HandleConnection runs on the listener end.
 func (w *World) OpenApp(channel string, expect func(off int) byte) *Endpoint {
 	a, b := netsim.Pipe(netsim.Addr{Net: "mem", Str: "app"}, netsim.Addr{Net: "mem", Str: "listener-" + channel}, w.Opt.AppBuf)
+	w.Track(b, "listener-side of app connection")
 	w.mu.Lock()
 	idx := len(w.Apps)
 	ep := NewEndpoint(a, fmt.Sprintf("app[%d:%s]", idx, channel), expect, w.Opt.Keep)
